@@ -34,21 +34,11 @@ fn listing(g: &ModuleGraph) -> BTreeMap<String, String> {
     .collect()
 }
 
-fn body(n_specs: usize, max_edges: usize) -> impl Fn(&Ch) -> Run + Sync + Send {
+fn body(space: Space) -> impl Fn(&Ch) -> Run + Sync + Send {
   move |ch: &Ch| {
     let mut run = Run::default();
-    let world = World::generate(
-      ch,
-      &GenOpts {
-        n_specs,
-        max_edges,
-        special_targets: true,
-        allow_remote: true,
-        kinds: KINDS,
-        deviation_cost: true,
-        max_roots: 2,
-      },
-    );
+    let n_specs = space.n_specs;
+    let world = space.generate(ch, 2, None);
     if world.has_source_phase_clobber() {
       run.state_key = world.key();
       run.outcome_key = 1;
@@ -265,25 +255,40 @@ pub fn prop(tier: Tier) -> Prop {
   let parts = match tier {
     Tier::Quick => vec![Part {
       name: "worlds",
-      body: Box::new(body(3, 2)),
+      body: Box::new(body(Space::generic(3, 2))),
       modes: vec![Mode::Deviations(2), Mode::Deviations(3), Mode::Deviations(4)],
       what: "3-specifier worlds, <= 2 edges, deviation-bounded; 3 graph kinds x all segment root sets of size <= 2",
     }],
     Tier::Thorough => vec![
       Part {
         name: "worlds",
-        body: Box::new(body(3, 3)),
+        body: Box::new(body(Space::generic(3, 3))),
         modes: vec![Mode::Deviations(3), Mode::Deviations(4), Mode::Deviations(5)],
         what: "3-specifier worlds, <= 3 edges",
       },
       Part {
         name: "worlds4",
-        body: Box::new(body(4, 3)),
+        body: Box::new(body(Space::generic(4, 3))),
         modes: vec![Mode::Deviations(3), Mode::Deviations(4)],
         what: "4-specifier worlds, <= 3 edges",
       },
     ],
   };
+  let mut parts = parts;
+  match tier {
+    Tier::Quick => parts.push(Part {
+      name: "core",
+      body: Box::new(body(Space::core(3, 3, CORE_KINDS_QUICK))),
+      modes: vec![Mode::Full],
+      what: "every world over the core alphabet, enumerated completely: 3 specifiers (root TypeScript, others TypeScript or missing), <= 3 edges from {import, dynamic import, import type}",
+    }),
+    Tier::Thorough => parts.push(Part {
+      name: "core",
+      body: Box::new(body(Space::core(3, 3, CORE_KINDS))),
+      modes: vec![Mode::Full],
+      what: "every world over the core alphabet, enumerated completely: 3 specifiers (kinds TypeScript / missing / JavaScript / JSON / redirect), <= 3 edges from {import, dynamic import, import type}",
+    }),
+  }
   Prop {
     id: "C18",
     rule: "state = world (as in C17); per world: 3 graph kinds x every set of <= 2 module-holding specifiers as segment roots. Checked: every dependency of every module in the segment resolves (both preferences) and looks up (try_get) exactly as in the original; validation verdict from those roots (follow_dynamic both ways); for non-original roots the listing equals a direct build of those roots. Non-trivial = world with >= 2 edges or a non-default form.".into(),
